@@ -8,6 +8,11 @@ ENTRY = dict(
          "bytes x config id / max_name_length {0,16,32,64,128,255} / AEAD lists; recorded: every byte the client wrote, both "
          "ConnectionStates, ClientHelloInfo.ServerName at the server, the client error; each utls hello also yields a case "
          "replaying computeAndUpdateOuterECHExtension in the model (byte-exact outer hello, HRR key-share update, outcome); "
+         "(a2) variants: the spec's SNIExtension already names the real server when the ECH connection applies it (custom spec "
+         "pre-filled by the caller; SNIExtension object shared with a spec used by an earlier non-ECH connection), checked by the "
+         "same name-leak/outer-sni oracle and a CPreset case per ApplyPreset; ONE server Config with 2 or 4 ECH keys (some "
+         "SendAsRetry=false) serving a history of stale / old-key / current-key clients: every configured key must be accepted every "
+         "time and every retry list must be exactly the SendAsRetry configs in order (CServer case per connection); "
          "(b) unit: encodeInnerClientHello[ReorderOuterExts] on random clientHelloMsg values with random outerExts "
          "(shuffled, thinned, duplicated, foreign ids, nil); decodeInnerClientHello on generated outer/encoded pairs with "
          "in-order, shuffled, rotated, repeated, missing-id, ECH-id lists, odd lengths, non-zero padding, truncations. "
